@@ -722,6 +722,10 @@ def _drive_kbi(obs, mgr, xfers, spec, mode, start_results):
                         w.director.cancel_began = True
                         state['skipped'] = True
                         return
+                    if ((spec.get('plan') or {}).get('gate') or {}).get('after_cancel_begin') and not state.get('all_parked'):
+                        # the gates open only once the interrupt has begun: wait until every thread has run as far as it can (parked
+                        # at a gate or blocked), so that "no request begins after the interrupt" can be judged
+                        state['all_parked'] = bool(watchdog.wait_quiescent(5.0, director=w.director, need=3))
                     if _main_thread_asleep(main_tid):
                         with lock:
                             if not state['returned'] and not state['sent']:
@@ -787,7 +791,7 @@ def _drive_kbi(obs, mgr, xfers, spec, mode, start_results):
         state['returned'] = True
     stop.set()
     log.add('cancel.end', how=mode, kbi=got['kbi'])
-    obs.kbi = dict(got, sent=state['sent'])
+    obs.kbi = dict(got, sent=state['sent'], all_parked=bool(state.get('all_parked')))
     if mode in ('kbi_shutdown', 'kbi_exit'):
         obs.done_at_barrier = {x.label: (x.future.done() if x.future is not None else None) for x in xfers}
         log.add('shutdown.end', error='KeyboardInterrupt' if got['kbi'] else None)
